@@ -17,15 +17,16 @@
 (*   every order.                                                          *)
 (***************************************************************************)
 EXTENDS DataDict
-CONSTANTS MaxLines, Mode, SampleChoices, Reduce, ChunkSizes, BootMax
+CONSTANTS MaxLines, Mode, SampleChoices, Reduce, ChunkSizes, BootMax, AllProjDepth, FlagSet
 
 Samples1 == {<<"P1", "P1">>}
 Samples2 == {<<"P1", "P1", "P2", "P2">>}
 Samples12 == Samples1 \cup Samples2
 SamplesFlags == {<<"P1", "", "P1">>, <<"P2", "P1">>}
+SamplesFlags1 == {<<"P2", "", "P1">>}
 
-VARIABLES file, st, depth
-vars == <<file, st, depth>>
+VARIABLES file, st, depth, pend
+vars == <<file, st, depth, pend>>
 
 G4 == {<<0, 0>>, <<0, 1>>, <<1, 1>>, <<2, 2>>}
 GCode(g) == 3 * g[1] + g[2]
@@ -42,23 +43,32 @@ GenoLines(samples, pos) ==
          g \in {h \in [1..Len(samples) -> G4] : ~Reduce \/ Canon(samples, h)}}
 FlagGenos(samples) == {[j \in 1..Len(samples) |-> IF j = 1 THEN <<0, 1>> ELSE <<1, 1>>],
                        [j \in 1..Len(samples) |-> IF j = 1 THEN <<0, 0>> ELSE <<2, 2>>]}
+FlagWhere == IF FlagSet = "small" THEN {<<"c_1", 1>>, <<"c_1", 3>>, <<"s.2", 1>>} ELSE {"c_1", "s.2"} \X {1, 3}
 FlagLines(samples) ==
-    {DataLine(c, p, ft, ra[1], ra[2], aa, g) : c \in {"c_1", "s.2"}, p \in {1, 3}, ft \in {"PASS", "q10"},
-         ra \in {<<"A", "T">>, <<"AT", "G">>}, aa \in {"A", "T", "absent", "G"}, g \in FlagGenos(samples)}
+    {DataLine(w[1], w[2], ft, ra[1], ra[2], aa, g) : w \in FlagWhere, ft \in {"PASS", "q10"},
+         ra \in {<<"A", "T">>, <<"AT", "G">>}, aa \in {"A", "T", "absent", "G"},
+         g \in IF FlagSet = "small" THEN {CHOOSE x \in FlagGenos(samples) : x[1] = <<0, 1>>} ELSE FlagGenos(samples)}
     \cup {[kind |-> "meta"]}
 LineChoices(samples, d) == IF Mode = "geno" THEN GenoLines(samples, d + 1) ELSE FlagLines(samples)
 
-Init == /\ depth = 0
+\* Reading a line takes two steps (choose it, then consume it) so that TLC's workers share the
+\* evaluation of the laws on the successor states; the laws speak about states without a pending line.
+NoLine == [kind |-> "none"]
+Init == /\ depth = 0 /\ pend = NoLine
         /\ \E samples \in SampleChoices :
               /\ file = [samples |-> samples, lines |-> <<[kind |-> "meta"], [kind |-> "header"]>>]
               /\ st = [f \in BOOLEAN |-> ParseFrom(PInit, [samples |-> samples, lines |-> <<[kind |-> "meta"], [kind |-> "header"]>>], 1, f)]
-ReadLine == /\ depth < MaxLines /\ depth' = depth + 1
-            /\ \E l \in LineChoices(file.samples, depth) :
-                  /\ (Mode = "geno" /\ depth > 0) => LineCode(l) >= LineCode(file.lines[Len(file.lines)])
-                  /\ file' = [file EXCEPT !.lines = Append(@, l)]
-                  /\ st' = [f \in BOOLEAN |-> PStep(st[f], file.samples, l, f)]
-Next == ReadLine
+ChooseLine == /\ pend = NoLine /\ depth < MaxLines
+              /\ \E l \in LineChoices(file.samples, depth) :
+                    /\ (Mode = "geno" /\ depth > 0) => LineCode(l) >= LineCode(file.lines[Len(file.lines)])
+                    /\ pend' = l
+              /\ UNCHANGED <<file, st, depth>>
+ReadLine == /\ pend # NoLine /\ pend' = NoLine /\ depth' = depth + 1
+            /\ file' = [file EXCEPT !.lines = Append(@, pend)]
+            /\ st' = [f \in BOOLEAN |-> PStep(st[f], file.samples, pend, f)]
+Next == ChooseLine \/ ReadLine
 Spec == Init /\ [][Next]_vars
+Settled == pend = NoLine
 
 \* ------------------------------------------------------------------------
 S_   == file.samples
@@ -67,7 +77,11 @@ DD(f) == st[f].dd
 PopsOf == PopSet(S_)
 NInd(p) == Cardinality(IdxOf(S_, p))
 PopSeqs == IF Cardinality(PopsOf) = 2 THEN {<<"P1", "P2">>, <<"P2">>} ELSE {<<"P1">>}
-Projs(pops) == {m \in [1..Len(pops) -> 1..4] : \A a \in 1..Len(pops) : m[a] <= 2 * NInd(pops[a])}
+\* every projection vector up to depth AllProjDepth (all laws are checked per SNP for every projection
+\* there); on longer files the projections of two populations are restricted to a few vectors
+Projs(pops) == {m \in [1..Len(pops) -> 1..4] :
+                   /\ \A a \in 1..Len(pops) : m[a] <= 2 * NInd(pops[a])
+                   /\ (depth > AllProjDepth /\ Len(pops) = 2) => m \in {<<4, 4>>, <<2, 3>>, <<3, 1>>, <<2, 2>>}}
 FullProj(pops) == [a \in 1..Len(pops) |-> 2 * NInd(pops[a])]
 Filters == IF Mode = "geno" THEN {TRUE} ELSE BOOLEAN
 EffLines(f, pops, proj, pol) == {i \in Effective(file, f) : LineUsable(S_, L_(i), pops, proj, pol)}
@@ -76,7 +90,7 @@ TypeOK == /\ depth \in 0..MaxLines /\ Len(file.lines) = depth + 2
           /\ \A f \in BOOLEAN : st[f].phase = "Data" /\ Len(st[f].log) = Len(file.lines)
 
 \* the reader's dictionary = last stored line of every key; reading incrementally = reading the whole file
-L_ParserDirect == \A f \in BOOLEAN :
+L_ParserDirect == Settled => \A f \in BOOLEAN :
     LET dd == DD(f)  E == Effective(file, f) IN
     /\ st[f] = Parse(file, f)
     /\ DOMAIN dd = {Key(L_(i)) : i \in E}
@@ -85,21 +99,25 @@ L_ParserDirect == \A f \in BOOLEAN :
     /\ \A i \in DataIdx(file) : st[f].log[i] = SkipReason(L_(i), f)
 
 \* usable at the level of the dictionary = usable at the level of the genotype matrix; total = their number
-L_Total == \A f \in Filters : \A pops \in PopSeqs : \A proj \in Projs(pops) : \A pol \in BOOLEAN :
+L_Total == Settled => \A f \in Filters : \A pops \in PopSeqs : \A proj \in Projs(pops) : \A pol \in BOOLEAN :
     LET U == UsableKeys(DD(f), pops, proj, pol) IN
     /\ U = {Key(L_(i)) : i \in EffLines(f, pops, proj, pol)}
     /\ Total(SpectrumOf(DD(f), pops, proj, pol)) = RInt(Cardinality(U))
 
 \* each entry = sum over usable SNPs of the fraction of subsamples showing exactly that configuration
-L_Literal == \A f \in Filters : \A pops \in PopSeqs : \A proj \in Projs(pops) :
+L_Literal == Settled => \A f \in Filters : \A pops \in PopSeqs : \A proj \in Projs(pops) :
     LET s == SpectrumOf(DD(f), pops, proj, TRUE)
-        E == EffLines(f, pops, proj, TRUE) IN
+        E == SetToSeq(EffLines(f, pops, proj, TRUE))
+        \* per usable SNP: the derived-count configuration of every subsample
+        hist == TLCEval([u \in 1..Len(E) |-> LET l == L_(E[u]) SS == Subsamples(S_, l, pops, proj) IN
+                          TLCEval([t \in SS |-> [a \in 1..Len(pops) |-> DerivedIn(l, t[a])]])]) IN
     \A k \in 1..Size(s.sh) :
-        s.d[k] = RSum([i \in E |-> SubsampleAvg(S_, L_(i), pops, proj, LAMBDA c : IF c = Unflat(s.sh, k) THEN "1" ELSE "0")])
+        s.d[k] = RSum([u \in 1..Len(E) |-> RDiv(RInt(Cardinality({t \in DOMAIN hist[u] : hist[u][t] = Unflat(s.sh, k)})),
+                                                RInt(Cardinality(DOMAIN hist[u])))])
 
 \* the folded spectrum ignores the ancestral-allele information, and is the fold of any polarisation
 EraseOG(dd) == [k \in DOMAIN dd |-> [dd[k] EXCEPT !.og = "-"]]
-L_Fold == \A f \in Filters : \A pops \in PopSeqs : \A proj \in Projs(pops) :
+L_Fold == Settled => \A f \in Filters : \A pops \in PopSeqs : \A proj \in Projs(pops) :
     LET fo == SpectrumOf(DD(f), pops, proj, FALSE) IN
     /\ Same(fo, SpectrumOf(EraseOG(DD(f)), pops, proj, FALSE))
     /\ fo.f /\ WellFormed(fo)
@@ -107,17 +125,17 @@ L_Fold == \A f \in Filters : \A pops \in PopSeqs : \A proj \in Projs(pops) :
 
 \* projecting the dictionary = projecting the spectrum when no call is missing (ties to C08), and the
 \* order of the requested populations is the order of the axes (ties to C10)
-L_ProjectConsistent == \A f \in Filters : \A pops \in PopSeqs :
+L_ProjectConsistent == Settled => \A f \in Filters : \A pops \in PopSeqs :
     LET full == SpectrumOf(DD(f), pops, FullProj(pops), TRUE) IN
     \A proj \in Projs(pops) :
        (\A k \in UsableKeys(DD(f), pops, proj, TRUE) : CalledVec(DD(f)[k], pops) = FullProj(pops))
           => SpectrumOf(DD(f), pops, proj, TRUE).d = Project(full, proj).d
-L_PopOrder == Cardinality(PopsOf) = 2 => \A f \in Filters : \A proj \in Projs(<<"P1", "P2">>) : \A pol \in BOOLEAN :
+L_PopOrder == (Settled /\ Cardinality(PopsOf) = 2) => \A f \in Filters : \A proj \in Projs(<<"P1", "P2">>) : \A pol \in BOOLEAN :
     Same(SpectrumOf(DD(f), <<"P2", "P1">>, <<proj[2], proj[1]>>, pol), Reorder(SpectrumOf(DD(f), <<"P1", "P2">>, proj, pol), <<2, 1>>))
 
 \* canonical chunks are a legal chunking; chunk spectra add up to the whole; bootstraps are sums of chunk spectra
 Identity(n) == [i \in 1..n |-> i]
-L_Chunks == \A f \in Filters : \A cs \in ChunkSizes :
+L_Chunks == Settled => \A f \in Filters : \A cs \in ChunkSizes :
     LET dd == DD(f)
         where == WhereOfFile(file, Effective(file, f))
         q == SetToSeq(ChunkSets(where, cs)) IN
@@ -135,14 +153,14 @@ L_Chunks == \A f \in Filters : \A cs \in ChunkSizes :
 
 \* "calls of some k fully called individuals" (closed form) = literally choosing k individuals;
 \* a line is stored under subsampling iff k individuals can be chosen in every requested population
-L_Subsample == \A i \in StoredIdx(file, TRUE) : \A p \in PopsOf : \A k \in 1..NInd(p) :
+L_Subsample == Settled => \A i \in StoredIdx(file, TRUE) : \A p \in PopsOf : \A k \in 1..NInd(p) :
     LET l == L_(i)  FC == FullyCalled(S_, l, p) IN
     /\ \A c \in (0..(2 * k)) \X (0..(2 * k)) :
           SubCallsOK(S_, l, p, k, c) <=> \E T \in KSubsets(FC, k) : CallsOfIndividuals(l, T) = c
     /\ (i \in SubStoredIdx(file, TRUE, [x \in {p} |-> k])) <=> (KSubsets(FC, k) # {})
 
 \* statistics of the spectrum = the same statistics counted on the genotype matrix
-L_Stats1 == \A f \in Filters : \A p \in PopsOf : \A m \in 2..(2 * NInd(p)) :
+L_Stats1 == Settled => \A f \in Filters : \A p \in PopsOf : \A m \in 2..(2 * NInd(p)) :
     LET dd == DD(f)
         s  == SpectrumOf(dd, <<p>>, <<m>>, TRUE)
         sf == SpectrumOf(dd, <<p>>, <<m>>, FALSE)
@@ -165,7 +183,7 @@ L_Stats1 == \A f \in Filters : \A p \in PopsOf : \A m \in 2..(2 * NInd(p)) :
     /\ TajCsq(s) = TajCsqOf(m, SMat(dd, <<p>>, <<m>>, TRUE))
     /\ (m >= 4 /\ RPos(SOf(s))) => RPos(TajCsq(s))
     /\ (m <= 3) => RIsZero(TajCsq(s))
-L_Fst == Cardinality(PopsOf) = 2 => \A f \in Filters : \A proj \in Projs(<<"P1", "P2">>) : \A pol \in BOOLEAN :
+L_Fst == (Settled /\ Cardinality(PopsOf) = 2) => \A f \in Filters : \A proj \in {FullProj(<<"P1", "P2">>), <<3, 2>>} : \A pol \in BOOLEAN :
     LET pops == <<"P1", "P2">>
         s == SpectrumOf(DD(f), pops, proj, pol)
         E == EffLines(f, pops, proj, pol)
